@@ -1,5 +1,7 @@
 """C14 -- types passed as arguments dispatch on type[...] by subtype (E1 vs R1-R3 with ref_subtype)."""
 
+import abc
+import enum
 import itertools
 import time
 import typing
@@ -32,12 +34,50 @@ class Thing(typing.Generic[T]):
     pass
 
 
+# classes whose metaclass is not plain `type`: they are classes all the same
+class KA(abc.ABC):
+    pass
+
+
+class KA1(KA):
+    pass
+
+
+class KV:
+    pass
+
+
+KA.register(KV)
+
+
+class Meta(type):
+    pass
+
+
+class KM(K0, metaclass=Meta):
+    pass
+
+
+class KM1(KM):
+    pass
+
+
+class Colour(enum.Enum):
+    RED = 1
+
+
+@typing.runtime_checkable
+class Proto(typing.Protocol):
+    def pm(self): ...
+
+
 CLASSES = {"K0": K0, "K1": K1, "K2": K2, "K3": K3, "Thing": Thing, "int": int, "O": object, "list": list, "dict": dict,
-           "Iterable": typing.Iterable.__origin__}
+           "Iterable": typing.Iterable.__origin__, "KA": KA, "KA1": KA1, "KV": KV, "KM": KM, "KM1": KM1, "Colour": Colour, "Proto": Proto}
 
 POOL = [["type", "K0"], ["type", "K1"], ["type", "K2"], ["type", "K3"], "type", ["type", "O"], "O", ["type", "list"],
         ["type", ["gen", "list", "K0"]], ["type", ["gen", "list", "K1"]], ["type", ["gen", "dict", "K0", "K1"]],
-        ["type", ["gen", "Iterable", "K0"]], ["type", ["gen", "Thing", "K0"]], ["type", ["gen", "list", ["gen", "list", "K0"]]], "K0"]
+        ["type", ["gen", "Iterable", "K0"]], ["type", ["gen", "Thing", "K0"]], ["type", ["gen", "list", ["gen", "list", "K0"]]], "K0",
+        ["type", "KA"], ["type", "KM"], ["type", ["gen", "list", "KA"]]]
 
 PASSED = [
     ("K0", K0), ("K1", K1), ("K2", K2), ("K3", K3), ("int", int), ("list", list), ("dict", dict), ("object", object),
@@ -46,6 +86,8 @@ PASSED = [
     ("dict[K0,K0]", dict[K0, K0]), ("typing.List[K1]", typing.List[K1]), ("typing.Any", typing.Any), ("Thing", Thing),
     ("Thing[K0]", Thing[K0]), ("Thing[K1]", Thing[K1]), ("Thing[K3]", Thing[K3]), ("Iterable[K1]", typing.Iterable[K1]),
     ("K0()", K0()), ("K1()", K1()), ("K3()", K3()), ("5", 5), ("[K0()]", [K0()]),
+    ("KA", KA), ("KA1", KA1), ("KV", KV), ("KM", KM), ("KM1", KM1), ("Colour", Colour), ("Proto", Proto), ("list[KA1]", list[KA1]), ("list[KM]", list[KM]),
+    ("Meta", Meta), ("KM()", KM()), ("Colour.RED", Colour.RED),
 ]
 VALUES = dict(PASSED)
 
@@ -178,7 +220,9 @@ def main(tier):
     return core.finish(
         PROP, tier, "model_checking", merged, t0,
         rule="annotation pool {type[C] over a 4-class hierarchy, bare type, type[object], object, type[list], type[list[C]], "
-             "type[dict[C,C']], type[Iterable[C]], type[Thing[C]] (user generic), type[list[list[C]]], an ordinary class}; all method "
+             "type[dict[C,C']], type[Iterable[C]], type[Thing[C]] (user generic), type[list[list[C]]], an ordinary class, type[ABC], "
+             "type[class with a custom metaclass], type[list[ABC]]}; passed classes include ABCs, a virtual subclass, classes with a custom "
+             "metaclass, an Enum, a runtime protocol, the metaclass itself; all method "
              "sets of <= 3 over one position, pairs over two positions (type[...] first or second, ordinary class in the other), "
              "call_next chains and recurse into tuple elements; passed objects: classes, parametrised generics, nested "
              "parametrisations, typing.List, typing.Any, plain instances; oracle R1-R3 with ref_subtype; abstains (monitor only) when "
